@@ -39,8 +39,24 @@ FORBIDDEN = re.compile(r"\b(sorry|admit|native_decide|bv_decide|implemented_by|u
 
 
 def sh(cmd, cwd=None, timeout=3600, env=None):
-    p = subprocess.run(cmd, cwd=cwd, capture_output=True, text=True, timeout=timeout, env=env)
+    p = subprocess.run(cmd, cwd=cwd, capture_output=True, text=True, timeout=timeout, env=env, preexec_fn=_lift_limits)
     return p.returncode, p.stdout, p.stderr
+
+
+MEM_LIMIT = 6 * 2**30
+
+
+def _lift_limits():
+    import resource
+    soft, hard = resource.getrlimit(resource.RLIMIT_AS)
+    resource.setrlimit(resource.RLIMIT_AS, (hard, hard))
+
+
+def limit_memory():
+    """a runaway allocation in the code under test (e.g. an unclamped chunk size) must surface as MemoryError, not hang the check"""
+    import resource
+    soft, hard = resource.getrlimit(resource.RLIMIT_AS)
+    resource.setrlimit(resource.RLIMIT_AS, (MEM_LIMIT, hard))
 
 
 class Lock:
@@ -201,15 +217,35 @@ def check(pid, tier, seed):
     # correspondence + oracle (outside the build lock)
     results = []
     model_ok = bok
-    for fn in mod.checks(tier):
+    limit_memory()
+
+    def run_fn(fn, t):
         try:
-            if fn.__name__.startswith("corr") and not model_ok:
-                continue
-            r = fn(seed, tier)
-        except Exception as e:  # noqa: BLE001
-            r = {"name": fn.__name__, "evaluations": 0, "distinct": 0, "crash": f"{type(e).__name__}: {e}",
-                 "trace": traceback.format_exc()[-1500:]}
-        results.append(r)
+            return fn(seed, t)
+        except BaseException as e:  # noqa: BLE001
+            if isinstance(e, KeyboardInterrupt):
+                raise
+            return {"name": fn.__name__, "evaluations": 0, "distinct": 0, "crash": f"{type(e).__name__}: {e}",
+                    "trace": traceback.format_exc()[-1500:]}
+
+    for fn in mod.checks(tier):
+        if fn.__name__.startswith("corr") and not model_ok:
+            continue
+        results.append(run_fn(fn, tier))
+
+    def any_new_violation():
+        kn = load_known()
+        return any(finding_for(kn, pid, v.get("key")) is None for r in results for v in r.get("violations", []))
+
+    tie_broken = bool(broken) or any(r.get("disagreements") or r.get("crash") for r in results)
+    if tie_broken and not any_new_violation() and tier == "quick":
+        # a tie no longer checks: escalate the failing-input search (oracles only, thorough parameters)
+        notes.append("tie broken: failing-input search escalated to the thorough oracle parameters")
+        for fn in mod.checks("thorough"):
+            if fn.__name__.startswith("oracle"):
+                r = run_fn(fn, "thorough")
+                r["name"] = r.get("name", fn.__name__) + " [escalated search]"
+                results.append(r)
 
     known = load_known()
     violations, known_hits = [], {}
